@@ -377,6 +377,27 @@ def _task_values(task):
             if i % 5000 == part:
                 res.sample({'value': repr(v)[:200], 'reference_type':
                             ref_type(v)})
+    # width 3 (and 4 when thorough): the homogeneity scan of a list has to
+    # look at every element, not just the first two or the last
+    pool_w = _small_atoms() + [[1], (1,), {'k': 1}]
+    widths = (3,) if quick else (3, 4)
+    n_w = 0
+    for wdt in widths:
+        for c in itertools.product(pool_w if wdt == 3 else pool_w[:7],
+                                   repeat=wdt):
+            n_w += 1
+            if n_w % nparts != part:
+                continue
+            _check_value(res, list(c), quick)
+            _check_value(res, tuple(c), quick)
+            res.count('nontrivial', 2)
+            if wdt == 3 and len({type(x) for x in c}) == 1 and \
+                    not isinstance(c[0], (list, tuple, dict, bytearray)):
+                try:
+                    _check_value(res, {'a': c[0], 'b': c[1], 'c': c[2]},
+                                 quick)
+                except TypeError:
+                    pass
     if not quick and part == 0:
         # depth 3 over a small pool
         pool3 = [1, 'a', [1], [[1]], (1, [2]), {'k': [1]}, {'k': {'l': 1}},
